@@ -415,6 +415,7 @@ func (c *ctx) corpus(tees []int) {
 func (c *ctx) exhaustive(tees []int) {
 	r := c.r
 	f1 := other{id: 1, nec: 1, negotiable: true}
+	f2 := other{id: 2, nec: 1, negotiable: true} // writes through the session's encoder
 	firsts := [][]unit{
 		{list()},
 		{list(it(0, false))},
@@ -458,6 +459,9 @@ func (c *ctx) exhaustive(tees []int) {
 						}
 						sc := scenario{others: []other{f1}, clear: segs(one, h, f, a), prot: p,
 							results: []negRes{{mask: 2}, {mask: 0}}, domain: n % 4, explicit: n%3 == 0}
+						if n%2 == 1 {
+							sc = useFeature2(sc, f2)
+						}
 						if !one && n%3 == 1 {
 							// every unit that starts a segment arrives split across two reads
 							sc.split = []int{0, 1 + n%17, 1 + n%29, 1 + n%7}
@@ -481,6 +485,42 @@ func (c *ctx) exhaustive(tees []int) {
 		}
 	}
 	r.Exhaustive = append(r.Exhaustive, fmt.Sprintf("%d scripts: header classes x %d first-list shapes x %d answers to the STARTTLS request x %d TLS-phase continuations x segmentation x tee variants x pipelined clear text", n, len(firsts), len(answers), len(prots)))
+}
+
+// useFeature2 renames feature 1 to feature 2 everywhere in a scenario.
+func useFeature2(sc scenario, f2 other) scenario {
+	sc.others = []other{f2}
+	ren := func(u unit) unit {
+		if u.kind != 'L' {
+			return u
+		}
+		nu := unit{kind: 'L'}
+		for _, i := range u.items {
+			if i.id == 1 {
+				i.id = 2
+			}
+			nu.items = append(nu.items, i)
+		}
+		return nu
+	}
+	var clear [][]unit
+	for _, seg := range sc.clear {
+		var ns []unit
+		for _, u := range seg {
+			ns = append(ns, ren(u))
+		}
+		clear = append(clear, ns)
+	}
+	sc.clear = clear
+	var prot []pu
+	for _, p := range sc.prot {
+		if !p.junk {
+			p.u = ren(p.u)
+		}
+		prot = append(prot, p)
+	}
+	sc.prot = prot
+	return sc
 }
 
 func (c *ctx) random(n int, tees []int) {
